@@ -1,5 +1,6 @@
 import CE.Cbe.Minimal
 import CE.Cbe.Reencode
+import CE.Cbe.ItemRoundTrip
 import CE.Canon
 /-
   C22 — CBE encoding is minimal and canonical.
@@ -15,8 +16,11 @@ import CE.Canon
   arrays in short and chunk-header form, comments, padding), decoding the encoder's
   bytes and encoding the delivered events again yields exactly the same bytes: the encoding is
   canonical (CE/Cbe/Reencode.lean, induction over the stream).
+  `chunked_encoding_is_a_fixed_point`: the same when the document also contains arrays sent in chunks
+  (any chunking, any division of the data into data events): what the decoder delivers for the
+  encoder's bytes encodes to exactly those bytes again (CE/Cbe/ItemRoundTrip.lean).
   `…_partial`: floats (narrowest exact width), typed-array headers and the same fixed point for
-  chunked arrays / media / custom types are decided on every run by the driver's independent size
+  media / custom types are decided on every run by the driver's independent size
   oracle (CBE.MINLEN) and by decode→encode byte identity on the implementation.
 -/
 namespace CE.Props.C22
@@ -82,6 +86,19 @@ theorem structural_encoding_is_a_fixed_point (evs : List Ev) (h : evs.all simple
     let doc := Ev.beginDoc :: Ev.version 0 :: (evs ++ [Ev.endDoc])
     ∃ back, decode (encode doc).1 = (back, none) ∧ encode back = encode doc :=
   canonical_fixed_point evs h
+
+/-- … also for documents with arrays sent in chunks -/
+theorem chunked_encoding_is_a_fixed_point (items : List Item) (h : ∀ i ∈ items, i.ok) :
+    let doc := Ev.beginDoc :: Ev.version 0 :: (items.flatMap Item.events ++ [Ev.endDoc])
+    ∃ back, decode (encode doc).1 = (back, none) ∧ encode back = encode doc := by
+  intro doc
+  refine ⟨_, items_decode_encode_doc items h, ?_⟩
+  have hfix := items_canonical_fixed_point items h
+  simp only [] at hfix
+  rw [items_decode_encode_doc items h] at hfix
+  have henc := items_encode_doc items h
+  rw [hfix]
+  simp only [doc, henc]
 
 example : (encPosInt 100).length = 1 ∧ (encPosInt 101).length = 2 ∧ (encPosInt (2 ^ 48)).length = 9 := by
   decide
